@@ -17,6 +17,8 @@ let parse_ops toks =
     | "]" :: r -> flush_body (); go r
     | "X" :: r -> cur := OX :: !cur; go r
     | "P" :: k :: r -> cur := OP (ni k) :: !cur; go r
+    | "PI" :: k :: r -> cur := OP (ni k) :: !cur; go r
+    | "PE" :: k :: r -> cur := OPE (ni k) :: !cur; go r
     | "CT" :: k :: r -> cur := OCT (ni k) :: !cur; go r
     | "CF" :: f :: r -> cur := OCF (nati f) :: !cur; go r
     | "CL" :: f :: r -> cur := OCL (nati f) :: !cur; go r
@@ -47,7 +49,7 @@ let loop_case toks =
     let phases = List.rev (if has_body then phases_rev else (List.rev cur :: phases_rev)) in
     let (x, fin) = run_script (nat_of_int 30000) rk (String.length pick > 0 && pick.[0] = 'h') (nati nfd) phases bodies in
     let subs = List.map (fun (k, v) -> soi (int_of_n k) ^ ":" ^ (match v with
-      | SP -> "p" | ST dl -> "t" ^ soi (int_of_n dl) | SI f -> "i" ^ soi (int_of_nat f) | SO f -> "o" ^ soi (int_of_nat f))) x.sout in
+      | SP -> "p" | SPE -> "pe" | ST dl -> "t" ^ soi (int_of_n dl) | SI f -> "i" ^ soi (int_of_nat f) | SO f -> "o" ^ soi (int_of_nat f))) x.sout in
     let log = List.map (fun ((h, c), t) -> soi (int_of_n h) ^ ":" ^ code_name c ^ "@" ^ soi (int_of_n t)) x.ms.log in
     "loop sub=" ^ join subs ^ " log=" ^ join log ^ " flags=" ^ (if not fin then "FUEL" else if int_of_nat x.stage = 3 then "EXC-sys9" else "-")
   | _ -> "loop BAD-CASE"
